@@ -233,6 +233,13 @@ struct Cm
     friend bool operator<(const Cm& a, const Cm& b) noexcept { return a.v < b.v; }
 };
 
+// Bs<N>: trivially copyable N-byte value type of alignment 1 (layout family: object sizes that are not powers of two)
+template <usize NB>
+struct Bs
+{
+    unsigned char b[NB];
+};
+
 // value <-> u64 code used by the reference model
 template <class T>
 inline T mk(u64 x)
